@@ -10,7 +10,8 @@
   call structure and a depth budget).  Source-derived facts: CelloGen/GcMark.lean (leaf list of GC_Recurse, types declaring Mark, shape of
   GC_Mark_And_Recurse, TLS callback, scan bound, texts of the Mark instances, the guard of Thread_Mark), entering through
   `Cfg.current`; whether GC_Mark clears the mark bits first: `clearFirstNow`.  The collector before a repair is an explicit OLD
-  variant of the model (`clearFirst := false`, `Cfg.preThreadGuard`, `remPtrPre`, `tlsCallback := false`, `guarded := false`).
+  variant of the model (`clearFirst := false`, `remPtrPre`, `tlsCallback := false`, `guarded := false`); the withdrawn guard of
+  Thread_Mark (80c795e, reverted by 0a0ad73) is the variant `Cfg.threadGuarded`.
   All theorems hold for every implementation `S : MarkSet σ` of the mark bits (the driver runs the hash-set one).
 -/
 import Cello.Heap
